@@ -11,6 +11,7 @@ import time
 import traceback
 
 ROOT = os.path.dirname(os.path.dirname(os.path.abspath(__file__)))
+NATIVE_BUILDABLE = {'Packet', 'Payload'}
 STRUCTURAL = ('pre@callsite', 'frame', 'inv-init', 'inv-keep', 'unexpected-exception', 'variant',
               'raises', 'no-raise')
 
@@ -25,8 +26,8 @@ def load_known_findings():
 
 def _budget(tier):
     if tier == 'thorough':
-        return dict(z3_ms=60000, cvc5_s=120, crosscheck=True)
-    return dict(z3_ms=8000, cvc5_s=20, crosscheck=False)
+        return dict(z3_ms=5000, cvc5_s=120, z3_s=120, both=False)
+    return dict(z3_ms=1500, cvc5_s=25, z3_s=25, both=False)
 
 
 def work_function(args):
@@ -59,14 +60,20 @@ def work_function(args):
             if prop is not None and o.kind not in STRUCTURAL and o.kind != 'canary' and \
                     o.kind != 'kf-repro' and prop not in o.props:
                 continue
-            r = solve.solve(o, z3_ms=b['z3_ms'], cvc5_s=b['cvc5_s'], crosscheck=b['crosscheck'])
+            def on_model(m, eng=eng):
+                try:
+                    rd = solve.ModelReader(eng, m, eng.cur_pre.heap, eng.cur_pre.ghost)
+                    return {'params': rd.params(eng.cur_penv), 'objects': rd.objects}
+                except Exception as e:
+                    return {'error': str(e)}
+            r = solve.solve_quick(o, z3_ms=b['z3_ms'],
+                                  on_model=None if o.kind in ('canary', 'kf-repro') else on_model)
             rec = {'id': o.oid, 'func': o.func, 'kind': o.kind, 'label': o.label,
+                   'replay': r.get('replay'),
                    'props': o.props, 'line': o.line, 'note': o.note, 'status': r['status'],
                    'backend': r['backend'], 'time_s': round(r['time_s'], 4),
                    'model': r.get('model'), 'trace': list(o.trace),
-                   'kf': getattr(o, 'kf', None)}
-            if 'crosscheck' in r:
-                rec['crosscheck'] = r['crosscheck']
+                   'kf': getattr(o, 'kf', None), 'smt2': r.get('smt2')}
             if r['status'] != 'unsat' or len(out['results']) < 2:
                 rec['smt_premises'] = len(o.premises)
                 rec['goal'] = str(z3.simplify(o.goal))[:600]
@@ -95,11 +102,11 @@ def work_lemma(args):
         obls = eng.lemma_obligations(lem)
         b = _budget(tier)
         for o in obls:
-            r = solve.solve(o, z3_ms=b['z3_ms'], cvc5_s=b['cvc5_s'], crosscheck=b['crosscheck'])
+            r = solve.solve_quick(o, z3_ms=b['z3_ms'])
             rec = {'id': o.oid, 'func': o.func, 'kind': o.kind, 'label': o.label,
                    'props': o.props, 'line': 0, 'note': o.note, 'status': r['status'],
                    'backend': r['backend'], 'time_s': round(r['time_s'], 4),
-                   'model': r.get('model'), 'trace': [], 'kf': None}
+                   'model': r.get('model'), 'trace': [], 'kf': None, 'smt2': r.get('smt2')}
             if r['status'] != 'unsat' or not out['results']:
                 rec['goal'] = str(z3.simplify(o.goal))[:600]
             out['results'].append(rec)
@@ -124,9 +131,25 @@ def run_property(prop, tier='quick', seed=0, jobs=12):
     tasks = [(work_function, (q, tier, prop)) for q in funcs] + \
             [(work_lemma, (n, tier)) for n in lemmas]
     ctx = mp.get_context('fork')
-    with ctx.Pool(min(jobs, max(1, len(tasks)))) as pool:
+    from . import solve
+    b = _budget(tier)
+    with ctx.Pool(jobs) as pool:
         asyncs = [pool.apply_async(f, (a,)) for f, a in tasks]
         outs = [a.get() for a in asyncs]
+        # stage 2: obligations the short in-process z3 attempt left open
+        open_ = [(o, r) for o in outs for r in o['results'] if r.get('smt2')]
+        res2 = pool.map(solve.solve_text,
+                        [(r['smt2'], b['cvc5_s'], b['z3_s'], b['both']) for _, r in open_])
+        for (o, r), r2 in zip(open_, res2):
+            r['stage1_time_s'] = r['time_s']
+            r['time_s'] = round(r['time_s'] + r2['time_s'], 4)
+            r['backend'] = r2['backend']
+            r['status'] = r2['status']
+            if r2['status'] == 'disagree':
+                r['status'] = 'unknown'
+                o['error'] = 'checker failure: back ends disagree on ' + r['id']
+                o['crash'] = True
+            del r['smt2']
 
     known = load_known_findings()
     violations = []
@@ -252,9 +275,10 @@ def run_property(prop, tier='quick', seed=0, jobs=12):
         'wall_s': round(time.time() - t0, 2),
         'violations': len(vio_lines),
     }
-    os.makedirs(os.path.join(ROOT, 'evidence'), exist_ok=True)
-    with open(os.path.join(ROOT, 'evidence', prop + '.json'), 'w') as f:
-        json.dump(ev, f, indent=1, default=str)
+    if not os.environ.get('PYVC_NO_EVIDENCE'):
+        os.makedirs(os.path.join(ROOT, 'evidence'), exist_ok=True)
+        with open(os.path.join(ROOT, 'evidence', prop + '.json'), 'w') as f:
+            json.dump(ev, f, indent=1, default=str)
     print('%s: %d/%d obligations discharged, %d functions, %d lemmas, %.1fs, exit %d'
           % (prop, n_dis, n_obl, len(fun_rows), len(lemmas), time.time() - t0, code))
     return code
@@ -268,9 +292,27 @@ def write_replay(prop, r, pm):
     rec = {'property': prop, 'obligation': r['id'], 'function': r['func'], 'kind': r['kind'],
            'label': r['label'], 'line': r['line'], 'note': r['note'], 'goal': r.get('goal'),
            'solver': {'status': r['status'], 'backend': r['backend'], 'time_s': r['time_s']},
-           'model': r.get('model'), 'trace': r.get('trace'), 'confirmed': False,
-           'native': None}
+           'model': r.get('model'), 'inputs': r.get('replay'), 'trace': r.get('trace'),
+           'confirmed': False, 'native': None}
     hook = getattr(pm, 'REPLAY', {}).get(r['func'])
+    from .contract import REG
+    c = REG.contracts.get(r['func'])
+    if c is not None:
+        try:
+            from .source import Source
+            node = Source().find(r['func'])[2]
+            order = [a.arg for a in node.args.args]
+        except Exception:
+            order = list(c.params)
+        rec['contract'] = {
+            'requires': [[cl.label, cl.src] for cl in c.requires_],
+            'ensures': [[cl.label, cl.src] for cl in c.ensures_],
+            'raises': [[rc.exc, rc.when, rc.exact, rc.label] for rc in c.raises_],
+            'param_order': order}
+        if hook is None and all(t.kind != 'ref' or t.args[0] in NATIVE_BUILDABLE
+                                for t in c.params.values()) and \
+                all(t.kind not in ('dict', 'rec', 'opaque') for t in c.params.values()):
+            hook = 'generic'
     confirmed = False
     if hook is not None:
         with open(os.path.join(ROOT, path), 'w') as f:
@@ -278,7 +320,9 @@ def write_replay(prop, r, pm):
         try:
             p = subprocess.run(['/venv/bin/python', os.path.join(ROOT, 'props', 'replay.py'),
                                 hook, os.path.join(ROOT, path)], capture_output=True, text=True,
-                               timeout=120, env=dict(os.environ, PYTHONPATH='/repo/src:' + ROOT))
+                               timeout=120, env=dict(os.environ, PYTHONPATH=os.path.dirname(
+                                   os.environ.get('PYVC_REPO_SRC', '/repo/src/engineio')) +
+                                   ':' + ROOT))
             rec['native'] = {'stdout': p.stdout[-3000:], 'stderr': p.stderr[-2000:],
                              'rc': p.returncode}
             confirmed = p.returncode == 1 and 'REPLAY-CONFIRMED' in p.stdout
